@@ -438,4 +438,8 @@ theorem buildList_length (c : Cfg) (ts : List TrxView) (remote : List Media) (ha
     | some m => simp only [hm, List.length_cons, ih _ hv']
     | none => simp only [hm, List.length_cons, ih _ hv']
 
+theorem mem_of_getElem_some {α : Type} {l : List α} {i : Nat} {x : α} (h : l[i]? = some x) : x ∈ l := by
+  obtain ⟨hi, rfl⟩ := List.getElem?_eq_some_iff.mp h
+  exact List.getElem_mem hi
+
 end RtcModel.Answer
